@@ -531,6 +531,16 @@ class Gen:
                 self.stmt("isca w%d %d" % (w, r.randint(-9, 9)), dict(kind="isca", lhs=pv, iw=w, leaves=[], hows=[], shape="scalar", toks=[]))
                 return
             op = "iasg" if y < 0.6 else r.choice(["icadd", "icsub", "icmul"])
+            if op == "icmul":
+                # with a repeated index the library accumulates (open finding F-39): a product over many repeats of one cell
+                # leaves the exact integer regime (signed overflow, which UBSan stops on) — keep the multiplicity small
+                mult = 1
+                for (c_, val) in self.iviews[w]["sel"]:
+                    if c_ == "i":
+                        xs = self.idx[val]
+                        mult *= max(xs.count(v_) for v_ in set(xs))
+                if mult > 3:
+                    op = "icadd"
             shape = r.choice(IDX_SHAPES if op == "iasg" else ICMP_SHAPES)
             if shape == "W":
                 # the same kind of indexed view over the same or another array, extents equal
@@ -716,6 +726,38 @@ def reduction_sweep(rng, t, order, n_arrays):
                 txt = op % ((v1, v1) if op.count("%d") == 2 else v1)
                 kind = txt.split()[0]
                 g.stmt(txt, dict(kind=kind, fn=txt.split()[1] if kind in ("red", "redb") else kind, lhs=v1, leaves=[], hows=[], shape="L", toks=[]))
+        cases.append(dict(type=t, order=order, ops=g.ops, stmts=g.stmts, views=g.views, allocs=g.allocs, iviews=g.iviews, idx=g.idx))
+    return cases
+
+
+def special_sweep(rng, t, order, n_arrays):
+    """outer_product and spread whose operands are rows / columns / sub-vectors of the TARGET itself (each operand position
+    on its own: left only, right only, both), plain and compound, whole target and sub-block target: the alias test of
+    these expression nodes must see every operand"""
+    cases = []
+    for _ in range(n_arrays):
+        g = Gen(rng, t, order, allow_row_mode=False)
+        n, m = rng.sample([2, 3, 4, 5], 2)
+        M = g.new_alloc([n, m], "def")
+        x = g.new_alloc([n], "def"); y = g.new_alloc([m], "def")
+        rowk = lambda: g.new_view(M, ["n%d" % rng.randrange(n), ":"], "outer-operand")      # extents [m]
+        colk = lambda: g.new_view(M, [":", "n%d" % rng.randrange(m)], "outer-operand")      # extents [n]
+        combos = [("right", x, rowk()), ("left", colk(), y), ("both", colk(), rowk())]
+        rng.shuffle(combos)
+        for which, a, b in combos:
+            if a is None or b is None:
+                continue
+            op = rng.choice(["asg", "asg", "csub", "cadd"])
+            toks = ["out", "v%d" % a, "v%d" % b]
+            g.stmt("%s v%d %s" % (op, M, " ".join(toks)), dict(kind=op, lhs=M, leaves=[a, b], hows=["outer-operand"] * 2, shape="O", toks=toks))
+        # spread of a row / column of the target into the target
+        r0 = rowk(); c0 = colk()
+        if r0 is not None:
+            toks = ["spr", "0", str(n), "v%d" % r0]
+            g.stmt("asg v%d %s" % (M, " ".join(toks)), dict(kind="asg", lhs=M, leaves=[r0], hows=["spread-operand"], shape="S0", toks=toks))
+        if c0 is not None:
+            toks = ["spr", "1", str(m), "v%d" % c0]
+            g.stmt("asg v%d %s" % (M, " ".join(toks)), dict(kind="asg", lhs=M, leaves=[c0], hows=["spread-operand"], shape="S1", toks=toks))
         cases.append(dict(type=t, order=order, ops=g.ops, stmts=g.stmts, views=g.views, allocs=g.allocs, iviews=g.iviews, idx=g.idx))
     return cases
 
@@ -1316,7 +1358,7 @@ def run(ctx, replay):
             report_case(ctx, res, label, t, exe, do_shrink=False)
         finish(ctx, fails)
         return
-    nstmt = 400 if ctx.tier == "quick" else 8000
+    nstmt = 2400 if ctx.tier == "quick" else 16000
     per_variant = nstmt // len(variants)
     corpus = load_corpus()
     for label, exe in zip(variants, exes):
@@ -1338,6 +1380,13 @@ def run(ctx, replay):
         for t in ("d", "i"):
             for order in (("r",) if ctx.tier == "quick" else ("r", "c")):
                 results = run_cases(ctx, exe, label, t, reduction_sweep(ctx.rng, t, order, 3 if ctx.tier == "quick" else 12))
+                for res in results:
+                    report_case(ctx, res, label, t, exe)
+                    account(ctx, res, label, t)
+        # outer_product / spread with operands taken from the target itself
+        for t in ("d", "i"):
+            for order in (("r",) if ctx.tier == "quick" else ("r", "c")):
+                results = run_cases(ctx, exe, label, t, special_sweep(ctx.rng, t, order, 4 if ctx.tier == "quick" else 16))
                 for res in results:
                     report_case(ctx, res, label, t, exe)
                     account(ctx, res, label, t)
